@@ -20,13 +20,13 @@ Qed.
 
 (* The same for inputs that end in a parse error: the error is only reported once the bytes deciding it are
    all there; before that the answer is not-enough-bytes. *)
-Theorem C07_error_only_when_decided : forall k, In k kinds_all -> forall ctx s e,
-  k_dec k ctx s = PErr e ->
-  exists c r, s = c ++ r /\ (forall c', sprefix c' c -> k_dec k ctx c' = PNeb) /\ (forall r', k_dec k ctx (c ++ r') = PErr e).
+Theorem C07_error_only_when_decided : forall k, In k kinds_all -> forall ctx s e r,
+  k_dec k ctx s = PErr e r ->
+  exists c, s = c ++ r /\ (forall c', sprefix c' c -> k_dec k ctx c' = PNeb) /\ (forall r', k_dec k ctx (c ++ r') = PErr e r').
 Proof.
-  intros k Hk ctx s e H. pose proof kinds_all_streamable as Hs. unfold kinds_streamable in Hs.
-  rewrite Forall_forall in Hs. destruct (st_err _ (Hs k Hk ctx) _ _ H) as [c [r [E [K N]]]].
-  exists c, r. split; [exact E|]. split; [exact N|exact K].
+  intros k Hk ctx s e r H. pose proof kinds_all_streamable as Hs. unfold kinds_streamable in Hs.
+  rewrite Forall_forall in Hs. destruct (st_err _ (Hs k Hk ctx) _ _ _ H) as [c [E [K N]]].
+  exists c. split; [exact E|]. split; [exact N|exact K].
 Qed.
 
 (* not-enough-bytes is downward closed: cutting more off never turns it into anything else *)
